@@ -100,11 +100,14 @@ class Network:
         return FakeHttpServer(self, host, port, scheme, **kw)
 
     # -- the transport ---------------------------------------------------------------------------
-    def transmit(self, netloc: str, method: str, path: str, headers: dict, raw_body: bytes) -> WireEntry:
+    def transmit(self, netloc: str, method: str, path: str, headers: dict, raw_body: bytes, bypass_policy: bool = False,
+                 extra: dict | None = None) -> WireEntry:
         with self.lock:
             entry = WireEntry(len(self.log), netloc, method, path, dict(headers), raw_body or b'', thread=threading.current_thread().name)
+            if extra:
+                entry.extra.update(extra)
             self.log.append(entry)
-        action = self.policy(entry) if self.policy is not None else None
+        action = self.policy(entry) if (self.policy is not None and not bypass_policy) else None
         if isinstance(action, Raise):
             entry.injected = action.name
             self._done(entry)
